@@ -10,6 +10,7 @@ import (
 	"os"
 	"path"
 	"path/filepath"
+	"sort"
 	"strings"
 	"sync"
 	"syscall"
@@ -30,7 +31,6 @@ func New(fs afero.Fs, opts ...Option) storage.Store {
 	}
 	local := &localFS{
 		fs:    fs,
-		glob:  make(map[string][]string),
 		retry: true,
 	}
 
@@ -70,8 +70,7 @@ func WithLogger(logger *zap.Logger) Option {
 
 type localFS struct {
 	fs        afero.Fs
-	glob      map[string][]string // current state of KeyPrefix matches
-	exclusive sync.Mutex          // mutex on glob access
+	exclusive sync.Mutex // mutex on KeysPrefix
 	lock      bool
 	rw        sync.RWMutex
 	retry     bool
@@ -285,87 +284,61 @@ func (l *localFS) KeysPrefix(_ context.Context, token, prefix, delimiter string,
 	l.exclusive.Lock()
 	defer l.exclusive.Unlock()
 
+	// keys are reported the way they are asked for: with or without a leading "/"
 	noRoot := !strings.HasPrefix(prefix, "/")
-	prefix = path.Clean("/" + prefix)
+	rooted := "/" + strings.TrimPrefix(prefix, "/")
 
-	// we cache the result for the duration of the fetch loop: during this period, localfs updates are not seen
-	search, ok := l.glob[prefix]
-	if !ok {
-		// NOTE: Glob is not workable, fall back to Walk
-		matches := make([]string, 0, 50)
-		err := afero.Walk(l.fs, path.Dir(prefix), func(pth string, info os.FileInfo, err error) error {
-			if info.IsDir() || err != nil {
-				return nil
-			}
-			if strings.HasPrefix(pth, prefix) {
-				if delimiter != "" && len(pth) > len(prefix) {
-					if cut := strings.Index(pth[len(prefix):], delimiter); cut > -1 {
-						pth = pth[0 : len(prefix)+cut+1]
-					}
-				}
-				if noRoot {
-					pth = strings.TrimPrefix(pth, "/")
-				}
-				matches = append(matches, pth)
-			}
+	// NOTE: Glob is not workable, fall back to Walk
+	matches := make([]string, 0, 50)
+	seen := make(map[string]struct{}, 50)
+	err := afero.Walk(l.fs, path.Dir(rooted), func(pth string, info os.FileInfo, err error) error {
+		if err != nil || info == nil || info.IsDir() {
 			return nil
-		})
-		if err != nil {
-			return nil, "", err
+		}
+		if !strings.HasPrefix(pth, "/") {
+			pth = "/" + pth
+		}
+		if !strings.HasPrefix(pth, rooted) {
+			return nil
 		}
 		if delimiter != "" {
-			// dedupe truncated matches
-			deduped := make([]string, 0, len(matches))
-			for _, match := range matches {
-				dupe := false
-				for _, lookup := range deduped {
-					if match == lookup {
-						dupe = true
-						break
-					}
-				}
-				if !dupe {
-					deduped = append(deduped, match)
-				}
+			if cut := strings.Index(pth[len(rooted):], delimiter); cut > -1 {
+				pth = pth[0 : len(rooted)+cut+len(delimiter)]
 			}
-			matches = deduped
 		}
-		l.glob[prefix], search = matches, matches
+		if noRoot {
+			pth = strings.TrimPrefix(pth, "/")
+		}
+		if _, dupe := seen[pth]; !dupe {
+			// dedupe truncated matches
+			seen[pth] = struct{}{}
+			matches = append(matches, pth)
+		}
+		return nil
+	})
+	if err != nil {
+		return nil, "", err
+	}
+	sort.Strings(matches)
+
+	// the page starts at the first key not smaller than the token
+	start := 0
+	if token != "" {
+		start = sort.SearchStrings(matches, token)
 	}
 
 	var (
-		start, end int
-		next       string
+		end  int
+		next string
 	)
-
-	if token == "" {
-		start = 0
-	} else {
-		found := false
-		for i, lookup := range search {
-			if token != lookup {
-				continue
-			}
-			found = true
-			start = i
-			break
-		}
-		if !found {
-			delete(l.glob, prefix)
-			return []string{}, "", nil
-		}
-	}
-
-	if len(search) > start+count {
-		next = search[start+count]
+	if count > 0 && len(matches) > start+count {
+		next = matches[start+count]
 		end = start + count
 	} else {
-		next = ""
-		end = len(search)
-		delete(l.glob, prefix)
+		end = len(matches)
 	}
 
-	return search[start:end], next, nil
+	return matches[start:end], next, nil
 }
 
 func (l *localFS) Clear(ctx context.Context) error {
